@@ -301,6 +301,8 @@ class Engine:
         defs = ["-D%s" % GUARD]
         if q.with_print:
             defs.append("-DBINSON_PARSER_WITH_PRINT")
+            if not getattr(self, "_native_defs", False):
+                defs += ["-include", os.path.join(VERIF, "model", "fmt_promote.h")]
         dd = dict(q.defines)
         if witness:
             dd.update(q.wit_defines)
@@ -378,7 +380,11 @@ class Engine:
         srcs = [os.path.join(VERIF, "harness", q.harness)]
         if not q.include_src:
             srcs += [os.path.join(REPO, SRC[s]) for s in q.sources]
-        defs = [d for d in self._cc_defs(q, witness)]
+        self._native_defs = True
+        try:
+            defs = [d for d in self._cc_defs(q, witness)]
+        finally:
+            self._native_defs = False
         cmd = ["gcc", "-std=gnu99", "-g", "-O1", "-fsanitize=address,undefined", "-fno-sanitize-recover=undefined",
                "-fno-omit-frame-pointer", "-w", "-DNATIVE_REPLAY", "-I" + hdr_dir,
                "-I" + os.path.join(REPO, "include"), "-I" + os.path.join(VERIF, "model"),
@@ -475,6 +481,11 @@ class Engine:
                 if isinstance(e, dict) and "symbolTable" in e:
                     for k, v in e["symbolTable"].items():
                         nsym += 1
+                        t0 = v.get("type") or {}
+                        if t0.get("id") == "array" and not v.get("isType") and not k.startswith("__CPROVER"):
+                            size = (t0.get("namedSub") or {}).get("size") or {}
+                            if size.get("id") not in ("constant", None, "nil", "infinity"):
+                                bad.append("%s (%s): variable-length array" % (k, SRC[s]))
                         if not v.get("isStaticLifetime") or v.get("isType"):
                             continue
                         t = v.get("type") or {}
@@ -488,7 +499,7 @@ class Engine:
         rec["stats"] = {"steps": nsym, "vccs": 1}
         if bad:
             rec["verdict"] = "fail"
-            rec["failed"] = [{"property": "symtab", "description": "PROP C17 writable static-lifetime symbol: " + b} for b in bad[:8]]
+            rec["failed"] = [{"property": "symtab", "description": "PROP C17 " + ("" if "variable-length" in b else "writable static-lifetime symbol: ") + b} for b in bad[:8]]
             rec["confirmed"] = True
             rec["_leaves"] = {}
             rec["cex_inputs"] = {"writable_statics": bad}
@@ -558,6 +569,11 @@ class Engine:
                     leaves = trace_inputs(unw[0].get("trace"))
                     rec["cex_inputs"] = {k: v.get("data") for k, v in leaves.items() if "$" not in k}
                     rec["_leaves"] = leaves
+                    # an unwinding assertion that still fails with doubled bounds may be a loop that never ends:
+                    # replay natively; a run that does not return within the time limit confirms non-termination
+                    rep = self.native_replay(q, wd, leaves, False, "unw")
+                    rec["replay"] = rep
+                    rec["hang_confirmed"] = bool(rep.get("built")) and any(r.get("timeout") for r in rep.get("runs", []))
                     return
             rec["reason"] = "cbmc rc=%s status=%s %s" % (rc, r["status"], r["tail"][-300:])
             return
